@@ -16,6 +16,12 @@ if len(sys.argv) > 2:
                       "Clone / Drop / Default / From impls, builder methods (Opts / HistogramOpts: namespace, subsystem, const_label(s), variable_label(s), buckets, From<Opts>), " +
                       "the accessor layer of the data model (src/plain_model.rs and src/proto_ext.rs must stay in step), value.rs / metrics.rs / desc.rs helpers, " +
                       "label-pair construction and sorting, the local (unsync) variants, vector `remove` / `reset` paths, or the order of two steps that only matters in a longer history.\n")
+        if sys.argv[2] == "avoid4":
+            avoid += ("\nThis time look for changes whose effect depends on HOW a value travels across API boundaries: conversions (From / Into / Deref / AsRef), " +
+                      "default values and empty collections (0 labels, 0 buckets, 0 children, empty strings), boundary sizes (exactly one element, the last element, " +
+                      "the first call after construction), error paths that return early after a partial update, operations repeated twice (idempotence), the interplay of " +
+                      "two public types that share a helper (Counter/Gauge over Value, Histogram/LocalHistogram over the same core, vectors over MetricVecCore, the two " +
+                      "encoders over check_metric_family, plain_model vs proto_ext), and re-use of an object after an operation that should have reset it.\n")
         avoid += "\nOther developers already tried the following ideas; yours must be DIFFERENT in kind (another code site or another mechanism), and at least one of your two changes should involve " + \
                 "either two cooperating sites that each look fine alone or a multi-step history / particular interleaving:\n" + "\n".join(ideas) + "\n"
 for l in open('/verif/properties.jsonl'):
